@@ -48,6 +48,7 @@ type ICSCase struct {
 	Value    string `json:"value"`    // tx value (wei)
 	Approve  string `json:"approve"`  // "" (none) | decimal limit (origin approves the contract first)
 	Receiver string `json:"receiver"` // ok | bad
+	Timeout  string `json:"timeout,omitempty"` // "" (a height) | none (height and timestamp both zero) | timestamp
 }
 
 func genICSCase(t *rapid.T) ICSCase {
@@ -58,6 +59,7 @@ func genICSCase(t *rapid.T) ICSCase {
 	c.Value = rapid.SampledFrom([]string{"0", "0", "1", "1000000000000000000"}).Draw(t, "value")
 	c.Approve = rapid.SampledFrom([]string{"", "1000", "1000000000000000000", "999", "5000000000000000000"}).Draw(t, "approve")
 	c.Receiver = rapid.SampledFrom([]string{"ok", "ok", "ok", "bad"}).Draw(t, "receiver")
+	c.Timeout = rapid.SampledFrom([]string{"", "", "", "none", "timestamp"}).Draw(t, "timeout")
 	if c.Shape == "direct" {
 		c.Role, c.Value = "origin", "0"
 	}
@@ -164,7 +166,14 @@ func runICS(t *testing.T, c ICSCase, class func(string)) (discs []icsDisc, nontr
 	if c.Receiver == "bad" {
 		receiver = "not-an-address"
 	}
-	calldata := pabi.Pack("ics20", "transfer", port, channel, denom, amt, senderHex, receiver, clienttypes.Height{RevisionNumber: 1, RevisionHeight: 1_000_000}, uint64(0), "")
+	tHeight, tStamp := clienttypes.Height{RevisionNumber: 1, RevisionHeight: 1_000_000}, uint64(0)
+	switch c.Timeout {
+	case "none":
+		tHeight = clienttypes.Height{} // no timeout at all: not a valid packet
+	case "timestamp":
+		tHeight, tStamp = clienttypes.Height{}, uint64(e.H.CurrentHeader.Time.UnixNano())+uint64(3600*1e9)
+	}
+	calldata := pabi.Pack("ics20", "transfer", port, channel, denom, amt, senderHex, receiver, tHeight, tStamp, "")
 	// approval (origin -> the contract that will call the precompile)
 	caller := frame0
 	if c.Shape == "child-reverts" {
@@ -262,7 +271,7 @@ func runICS(t *testing.T, c ICSCase, class func(string)) (discs []icsDisc, nontr
 	if c.Role == "origin" && c.Shape != "direct" && (limit.Sign() == 0 || limit.Cmp(amt) < 0) {
 		mayTransfer = false // a contract moving origin's coins needs a live approval with a sufficient limit
 	}
-	if c.Shape == "child-reverts" || c.Shape == "tx-fails" {
+	if c.Shape == "child-reverts" || c.Shape == "tx-fails" || (c.Shape == "via" && !preOK) {
 		// ---- C05: nothing of the transfer may remain ----
 		c05key := "frame-revert-leak:ics20.transfer"
 		if c.Shape == "tx-fails" {
@@ -311,7 +320,9 @@ func runICS(t *testing.T, c ICSCase, class func(string)) (discs []icsDisc, nontr
 		if got.Cmp(expected[k]) != 0 {
 			key := "ics20-ledger:" + k + ":" + c.Shape
 			switch {
-			case c.Shape == "child-reverts":
+			case c.Shape == "child-reverts", c.Shape == "via" && !preOK && !txFailed:
+				// (a transfer that fails after the escrow step, e.g. for lack of any timeout, returns failure to the
+				// calling contract; the escrow it already made stays)
 				key = "failed-precompile-call-leaves-effects"
 			case k == who && preOK && (value.Sign() > 0 || c.Role == "self"):
 				key = "stale-overwrite:ics20.transfer:debit"
@@ -357,7 +368,7 @@ func runICS(t *testing.T, c ICSCase, class func(string)) (discs []icsDisc, nontr
 		if c.Amt == "balance+1" {
 			amtN = new(big.Int).Add(h0, big.NewInt(1))
 		}
-		msg := transfertypes.NewMsgTransfer(port, channel, sdk.NewCoin(denom, sdk.NewIntFromBigInt(amtN)), e.origin.Addr.String(), receiver, clienttypes.NewHeight(1, 1_000_000), 0, "")
+		msg := transfertypes.NewMsgTransfer(port, channel, sdk.NewCoin(denom, sdk.NewIntFromBigInt(amtN)), e.origin.Addr.String(), receiver, tHeight, tStamp, "")
 		feeN := big.NewInt(0)
 		resN, errN := ibcDeliver(e.H, msg)
 		if denom == utils.BaseDenom {
